@@ -12,10 +12,12 @@ from . import synth
 
 
 def gen_cp_events(seed: int, n_steps: int = 2, n_streams: int = 2, sync_records: bool = True, q: int = 5, base: int = 1_000_000, annotations: bool = False,
-                  n_threads: int = 1) -> List[Dict[str, Any]]:
+                  n_threads: int = 1, frac_kernels: bool = False) -> List[Dict[str, Any]]:
     """n_threads=2 adds a second host thread (larger tid) whose operators run concurrently with the main thread's inside
     every step and launch kernels on a stream of their own; kernels that a device-wide synchronisation of the main thread
     would have to wait for beyond its return are not generated (causal consistency)."""
+    import math
+
     rng = random.Random(seed)
     evs: List[Dict[str, Any]] = []
     corr = [500]
@@ -46,7 +48,7 @@ def gen_cp_events(seed: int, n_steps: int = 2, n_streams: int = 2, sync_records:
                 else:
                     wait_end = max(last_end.values())
                     name, rec, rstream = "cudaDeviceSynchronize", "Context Sync", -1
-                end = max(t + q, wait_end + rng.choice([0, 0, q]))
+                end = max(t + q, math.ceil(wait_end) + rng.choice([0, 0, q]))  # timestamps stay whole numbers also when kernel durations are fractional
                 c = nc()
                 body.append(synth.launch(t, end - t, c, name=name))
                 if sync_records:
@@ -58,18 +60,23 @@ def gen_cp_events(seed: int, n_steps: int = 2, n_streams: int = 2, sync_records:
             op = synth.host_op(rng.choice(["aten::mm", "aten::add", "aten::linear", "aten::conv2d"]), t, d)
             body.append(op)
             inner_t0, inner_t1 = t + (0 if rng.random() < 0.3 else q), t + d - (0 if rng.random() < 0.3 else q)
-            ann_mode = rng.choice(["whole", "first_child_only"]) if (annotations and rng.random() < 0.5) else None
+            ann_mode = rng.choice(["whole", "first_child_only", "second_child_only", "each_child_its_own"]) if (annotations and rng.random() < 0.6) else None
             if ann_mode == "whole" and inner_t1 - inner_t0 >= 3 * q:
                 body.append(synth.annotation("my_region", inner_t0, inner_t1 - inner_t0))
-            if (rng.random() < 0.5 or ann_mode == "first_child_only") and inner_t1 - inner_t0 >= 3 * q:
+            if (rng.random() < 0.5 or ann_mode in ("first_child_only", "second_child_only", "each_child_its_own")) and inner_t1 - inner_t0 >= 3 * q:
                 mid = inner_t0 + q * rng.randint(1, max(1, (inner_t1 - inner_t0) // q - 2))
-                if ann_mode == "first_child_only":
+                if ann_mode in ("first_child_only", "each_child_its_own"):
                     body.append(synth.annotation("my_region", inner_t0, mid - inner_t0))  # encloses inner_a only
                 body.append(synth.host_op("aten::inner_a", inner_t0, mid - inner_t0))
                 launch_zone = (inner_t0, mid)
                 b0 = mid + q * rng.randint(0, 1)
-                if inner_t1 - b0 >= q and (rng.random() < 0.7 or ann_mode == "first_child_only"):
-                    body.append(synth.host_op("aten::inner_b", b0, inner_t1 - b0))
+                if inner_t1 - b0 >= q and (rng.random() < 0.7 or ann_mode is not None):
+                    if ann_mode in ("second_child_only", "each_child_its_own") and inner_t1 - b0 >= 2 * q:
+                        # an annotation around the SECOND child only: it starts after the first child has ended, with a gap before it
+                        body.append(synth.annotation("my_other_region", b0 + q, inner_t1 - b0 - q))
+                        body.append(synth.host_op("aten::inner_b", b0 + q, inner_t1 - b0 - q))
+                    else:
+                        body.append(synth.host_op("aten::inner_b", b0, inner_t1 - b0))
             else:
                 launch_zone = (inner_t0, inner_t1)
             if launch_zone[1] - launch_zone[0] >= 2 * q and (rng.random() < 0.85 or not kernels):
@@ -82,12 +89,14 @@ def gen_cp_events(seed: int, n_steps: int = 2, n_streams: int = 2, sync_records:
                 st = rng.choice(streams)
                 kts = max(free[st], lts + q * rng.randint(0, 3))
                 kdur = q * rng.randint(1, 8)
+                if frac_kernels and rng.random() < 0.6:
+                    kdur -= rng.choice([0.25, 0.5, 0.75])  # whole-number timestamps, fractional durations: the loader rounds nothing
                 if is_cpy:
                     k = synth.memcpy("Memcpy HtoD (Pageable -> Device)", kts, kdur, st, c, bw=3.5)
                 else:
                     k = synth.kernel(rng.choice(["void gemm_kernel", "ncclKernel_AllReduce_RING_LL_Sum_float", "void elementwise_kernel"]), kts, kdur, st, c)
                 kernels.append(k)
-                free[st] = kts + kdur + q * rng.randint(0, 2)
+                free[st] = math.ceil(kts + kdur) + q * rng.randint(0, 2)
                 last_end[st] = kts + kdur
             t += d + q * rng.randint(0, 2)
         e0 = t
